@@ -5071,6 +5071,16 @@ static psBool_t isIndefiniteDateRFC5280(psBrokenDownTime_t *t)
  */
 int32 validateDateRange(psX509Cert_t *cert)
 {
+    return psX509DateRangeFlags(cert, &cert->authFailFlags);
+}
+
+/**
+    Same test, but the result is OR-ed into *failFlags and the certificate
+    itself is left untouched: used for trust anchors, which are shared by
+    all sessions that use the same key set.
+ */
+int32 psX509DateRangeFlags(const psX509Cert_t *cert, uint32 *failFlags)
+{
     int32 err;
     psBrokenDownTime_t timeNow;
     psBrokenDownTime_t timeNowLinger;
@@ -5125,20 +5135,20 @@ int32 validateDateRange(psX509Cert_t *cert)
         if (psBrokenDownTimeCmp(&timeNow, &afterTimeLinger) > 0)
         {
             /* afterTime is in past. */
-            cert->authFailFlags |= PS_CERT_AUTH_FAIL_DATE_FLAG;
+            *failFlags |= PS_CERT_AUTH_FAIL_DATE_FLAG;
         }
     }
 
     if (psBrokenDownTimeCmp(&beforeTime, &timeNowLinger) > 0)
     {
         /* beforeTime is in future. */
-        cert->authFailFlags |= PS_CERT_AUTH_FAIL_DATE_FLAG;
+        *failFlags |= PS_CERT_AUTH_FAIL_DATE_FLAG;
     }
 
     if (psBrokenDownTimeCmp(&beforeTime, &afterTime) > 0)
     {
         /* beforeTime is later than afterTime. */
-        cert->authFailFlags |= PS_CERT_AUTH_FAIL_DATE_FLAG;
+        *failFlags |= PS_CERT_AUTH_FAIL_DATE_FLAG;
     }
 
     return 0;
@@ -5932,8 +5942,8 @@ psBool_t psX509IsSameCert(const psX509Cert_t *a, const psX509Cert_t *b)
     that doesn't succeed.  The 'authStatus' members may be examined for more
     information of where the authentication failed.
 
-    The 'authStatus' member of the issuerCert will be set to PS_FALSE
-    since it will not be authenticated.
+    The issuerCert is only read: it may be a trust anchor shared by
+    sessions running in other threads.
 
     The 'authStatus' members of the subjectCert structures will always
     be reset to PS_FALSE when this routine is called and set to PS_TRUE
@@ -5990,7 +6000,6 @@ int32 psX509AuthenticateCert(psPool_t *pool, psX509Cert_t *subjectCert,
     }
     else
     {
-        issuerCert->authStatus = PS_FALSE;
         ic = issuerCert; /* Easy case of single subject and single issuer */
         sc = subjectCert;
     }
